@@ -584,7 +584,12 @@ def b_max(eng, args, kw):
 def b_sum(eng, args, kw):
     xs = eng.concrete_items(args[0])
     if xs is None:
-        raise EngineError('sum over symbolic sequence (needs a summary)')
+        seq = eng.as_seq(args[0])
+        AXIOMS_USED.add('sum(seq) denoted by an uninterpreted value per sequence (definition of the sum)')
+        r = eng.make_typed('real', 'sum.' + seq.label, [])
+        eng.sums = getattr(eng, 'sums', [])
+        eng.sums.append((r, seq))
+        return r
     s = args[1] if len(args) > 1 else 0
     for x in xs:
         s = eng.binop(ast.Add(), s, x)
@@ -594,6 +599,8 @@ def b_sum(eng, args, kw):
 def b_sorted(eng, args, kw):
     xs = eng.concrete_items(args[0])
     if xs is None:
+        if isinstance(args[0], SList) and any(c[0] == 'opaque' for c in args[0].chunks):
+            return SList([('opaque', fresh_name('havoc.sorted'), args[0].length())])
         # axiom: sorted(seq, key) is a permutation of seq (stable, ordered by key)
         seq = eng.as_seq(args[0])
         AXIOMS_USED.add('sorted(seq) is a permutation of seq: sorted[i] = seq[perm(i)], 0 <= perm(i) < len, perm injective')
@@ -920,6 +927,7 @@ def getitem(eng, base, idx):
         if base.rank == 1:
             if isinstance(idx, tuple):
                 raise EngineError('tuple index into rank-1 array')
+            arr_bounds(eng, base, idx)
             return base.read((idx,))
         if isinstance(idx, tuple):
             return base.read(idx)
@@ -949,6 +957,16 @@ def getitem(eng, base, idx):
     if isinstance(base, Opt) or base is None:
         raise PyRaise('TypeError', ('NoneType not subscriptable',))
     raise EngineError('subscript of %r' % (base,))
+
+
+def arr_bounds(eng, arr, idx):
+    """IndexError of a rank-1 array with known length (non-negative indices only)."""
+    if arr.length is None:
+        return
+    if eng.decide(r_cmp('<', idx, 0)):
+        raise EngineError('negative index into a symbolic array')
+    if eng.decide(r_cmp('>=', idx, arr.length)):
+        raise PyRaise('IndexError', ())
 
 
 def seq_getitem(eng, seq, idx):
@@ -1059,6 +1077,9 @@ def setitem(eng, base, idx, v):
     if isinstance(base, SArr):
         if base.rank != 1:
             raise EngineError('store into rank-%d array without full index' % base.rank)
+        if isinstance(idx, Opt):
+            idx = eng.unopt(idx)
+        arr_bounds(eng, base, idx)
         base.writes.append(((idx,), v))
         eng.note_write(('arr', base))
         return
